@@ -50,4 +50,13 @@ def writesKnown : Bool :=
   Jap.Gen.PState.writes.all fun e =>
     nonCarrier.contains e.2.2.2.1 || carrierWriters.any fun cw => cw.1 == e.2.2.2.1 && cw.2.contains e.1
 
+/-- classifications of writes to process-level state that make no carrier: made by a public settings function / at
+    import (part of the declaration), memo of a constant, outside the operations considered -/
+def procClasses : List String := ["declaration-time", "memo-of-constant", "outside"]
+
+/-- every regenerated write to a module global / module-level container / class attribute is of a known harmless class,
+    and no function of the package carries a caching decorator -/
+def procWritesKnown : Bool :=
+  Jap.Gen.PState.procWrites.all fun e => procClasses.contains e.2.2.2.2.1 && e.2.2.1 != "decorator"
+
 end Jap.PState
